@@ -1154,13 +1154,22 @@ class SimOracle(object):
             else:
                 self.cls("cond-woken")
                 self.serve_order_check(p, c)
-        elif ret == CANCELLED and note is not None and note.kind == "ccancel":
-            pass
+        elif note is None and any(n.kind == "ccancel" and not n.delivered and not n.dead and n.due == T
+                                  for n in p.notes):
+            self.viol("C13", "C13/cancel-wrong-code",
+                      "p%d was cancelled from %s and returned %d instead of CANCELLED (%d)" % (p.pid, c.obj, ret, CANCELLED))
 
     def ret_wait_proc(self, p, c, ret, outs, blocked, note):
         T = self.time
         tg = self.procs[c.args[0]]
         comp = c.completion
+        if comp is not None and comp[0] == "procend" and comp[1] == T and ret in (SUCCESS, STOPPED) \
+                and ret != comp[2] and not (ret == STOPPED and note is not None and note.kind != "procend"):
+            self.viol("C09", "C09/waiter-wrong-code",
+                      "p%d got %s from wait_process(p%d) although p%d %s" % (
+                          p.pid, "STOPPED" if ret == STOPPED else "SUCCESS", tg.pid, tg.pid,
+                          "ended normally" if comp[2] == SUCCESS else "was stopped"))
+            c.completion = comp = None
         if ret == SUCCESS:
             if comp is None:
                 self.viol("C04", "C04/unjustified-success/wait_proc",
